@@ -59,14 +59,23 @@ func NewGRPCServerMuxer(logger hclog.Logger, ln net.Listener) *GRPCServerMuxer {
 		acceptChannels: make(map[uint32]chan acceptResult),
 	}
 
-	go m.acceptSession(ln)
+	// Build the yamux config here rather than in the goroutine below:
+	// yamux.DefaultConfig reads os.Stderr, which plugin.Serve replaces while
+	// that goroutine may still be waiting for the initial connection.
+	cfg := yamux.DefaultConfig()
+	cfg.Logger = m.logger.Named("yamux").StandardLogger(&hclog.StandardLoggerOptions{
+		InferLevels: true,
+	})
+	cfg.LogOutput = nil
+
+	go m.acceptSession(ln, cfg)
 
 	return m
 }
 
 // acceptSessionAndMuxAccept is responsible for establishing the yamux session,
 // and then kicking off the acceptLoop function.
-func (m *GRPCServerMuxer) acceptSession(ln net.Listener) {
+func (m *GRPCServerMuxer) acceptSession(ln net.Listener, cfg *yamux.Config) {
 	defer close(m.sessionErrCh)
 
 	m.logger.Debug("accepting initial connection", "addr", m.addr)
@@ -77,11 +86,6 @@ func (m *GRPCServerMuxer) acceptSession(ln net.Listener) {
 	}
 
 	m.logger.Debug("initial server connection accepted", "addr", m.addr)
-	cfg := yamux.DefaultConfig()
-	cfg.Logger = m.logger.Named("yamux").StandardLogger(&hclog.StandardLoggerOptions{
-		InferLevels: true,
-	})
-	cfg.LogOutput = nil
 	m.sess, err = yamux.Server(conn, cfg)
 	if err != nil {
 		m.sessionErrCh <- err
